@@ -163,6 +163,8 @@ CHECKS = {
             {"run": "^TestC09BufferReuse$", "n": {"quick": 5000, "thorough": 40000}},
             {"run": "^TestC09FailoverCollision$", "n": {"quick": 5000, "thorough": 40000}},
             # concurrent operations on a colliding pair (one linearizability slot with two keys)
+            # a label carrying thousands of keys, one of them displaced by a colliding unlabelled key
+            {"run": "^TestC15ManyKeys$", "name": "C15ManyKeys-for-C09", "n": {"quick": 300, "thorough": 3000}},
             {"run": "^TestC08Linearizable$", "name": "C08Linearizable-for-C09", "n": {"quick": 6000, "thorough": 40000}},
         ],
     },
@@ -265,6 +267,8 @@ CHECKS = {
         "assumptions": ["deleters are real ShardedMap/SyncMap behind a counting fault wrapper"],
         "jobs": [
             {"run": "^TestC15Labels$", "n": {"quick": 4000, "thorough": 30000}},
+            # labels carrying thousands of keys, colliding unlabelled partner, odd contexts
+            {"run": "^TestC15ManyKeys$", "n": {"quick": 300, "thorough": 3000}},
         ],
     },
     "C16": {
